@@ -311,9 +311,20 @@ class GenerateWasmVisitor(Visitor.DefaultVisitor):
 
         ctx.SetReferenceToLocalMap(valueReferenceToLocalMap)
 
+        lastInstruction = None
         for basicBlock in function.BasicBlocks:
             for instruction in basicBlock.Instructions:
                 self.v_Visit(instruction, ctx)
+                lastInstruction = instruction
+
+        # The end of a body has to leave the declared result on the stack, so
+        # a function with a result cannot run into its end without a return
+        if ctx.GetResultTypes() and not isinstance(
+            lastInstruction, LinearIR.ReturnInstruction
+        ):
+            raise RuntimeError(
+                f"Unsupported function for WebAssembly: {function.Name} can end without returning a value"
+            )
 
         ctx.OnLeaveFunction()
 
